@@ -47,6 +47,9 @@ CLAIMED = {
  "C02": ("CFG path rules on the four sibling 'walk to the first non-nullable symbol' loops (continue-only-past-nullable, must-merge, justified break), guard / def-use rules on inclusion edges, table keys and ordering",
          "Decides that the nullable / FIRST / FOLLOW / predict-table code generates exactly the textbook (Aho-Ullman) constraints for every grammar: no walk goes past a symbol without having established nullability, every visited symbol contributes (terminals themselves, non-terminals their FIRST) before being left, walks stop only at non-nullable symbols, the only FOLLOW-inclusion edges are owner -> symbol in an all-nullable tail, $END$ seeds the start symbol, closures run to a fixpoint, table entries are keyed (owner, token), sorted by priority and looked up with the same key shape, and is_ambiguous reports any entry without exactly one alternative.",
          "That the accepted language equals the grammar's language, and agreement of the two factorisation settings, are NOT decided (they are semantic consequences argued by hand). The recogniser is tied to the worklist-free fixpoint algorithms in the code; a different algorithm ends in ANALYSIS-ERROR.", "3/C02"),
+ "C03": ("must-fact (belief-contradiction) rule on every cursor move of the recursion check, event language (loop head / progress action) on the CFG of the parse loop",
+         "Decides necessary conditions of both sentences: in the left-recursion check every move that abandons a production is justified by a non-nullability fact (not by mere membership in the examined set, which is how hidden recursion behind a nullable symbol was missed) and every step past a symbol by a nullability fact, the cycle test ranges over the whole DFS stack, all symbols are roots, only GrammarIsRecursive is raised; in the parse loop no iteration can repeat without a progress action and the roll-back scan strictly decreases.",
+         "Termination of parse for accepted grammars (a lexicographic measure over cursor / stack / alternative indices) and exactness of the rejection ('exactly when') are NOT proven, only their structural necessary conditions.", "3/C03"),
 }
 
 NOT_APPLICABLE = {
